@@ -100,18 +100,52 @@ MUTANTS = [
      "blake3_hasher_init_derive_key_raw(self, context, strlen(context));",
      "blake3_hasher_init_derive_key_raw(self, context, strlen(context) + 1);",
      ["blake3_hasher_init_derive_key"], "derive_key hashes the terminating NUL too"),
+    # ---- plumbing mutants: memory safe, every frame and shape kept; caught by the *_fn units only ----
+    ("root_bytes_bulk_guard", "blake3.c",
+     "  if(out_len / 64) {", "  if(out_len > 64) {",
+     ["output_root_bytes_fn"], "seed C06-2: with exactly one whole block left the bulk xof_many call is skipped: 64 output bytes never written"),
+    ("hash_many_sse2_flags_swapped", "blake3_dispatch.c",
+     "    blake3_hash_many_sse2(inputs, num_inputs, blocks, key, counter,\n                          increment_counter, flags, flags_start, flags_end,",
+     "    blake3_hash_many_sse2(inputs, num_inputs, blocks, key, counter,\n                          increment_counter, flags, flags_end, flags_start,",
+     ["blake3_hash_many_fn"], "seed C06-3: flags_start / flags_end swapped in the SSE2 branch of the hash_many dispatch only"),
+    ("finalize_stack_index", "blake3.c",
+     "cvs_remaining = self->cv_stack_len - 2;", "cvs_remaining = self->cv_stack_len - 1;",
+     ["blake3_hasher_finalize_seek_fn"], "finalize starts the roll-up one stack entry too high: in bounds under HASHER_WF, wrong root node"),
+    ("parents_swapped_children", "blake3.c",
+     "&child_chaining_values[2 * parents_array_len * BLAKE3_OUT_LEN];\n    parents_array_len += 1;",
+     "&child_chaining_values[(num_chaining_values - 2 - 2 * parents_array_len) * BLAKE3_OUT_LEN];\n    parents_array_len += 1;",
+     ["compress_parents_parallel_fn"], "parents are formed from the child pairs in reverse order: same frames, wrong tree"),
+    ("compress_in_place_sse41_args_swapped", "blake3_dispatch.c",
+     "blake3_compress_in_place_sse41(cv, block, block_len, counter, flags);",
+     "blake3_compress_in_place_sse41(cv, block, flags, counter, block_len);",
+     ["blake3_compress_in_place_fn"], "block_len and flags (both uint8_t) swapped in the SSE4.1 branch of compress_in_place"),
+    ("compress_xof_avx512_counter_dropped", "blake3_dispatch.c",
+     "blake3_compress_xof_avx512(cv, block, block_len, counter, flags, out);",
+     "blake3_compress_xof_avx512(cv, block, block_len, 0, flags, out);",
+     ["blake3_compress_xof_fn"], "the AVX-512 branch of compress_xof always passes counter 0"),
+    ("chaining_value_counter_dropped", "blake3.c",
+     "                           self->counter, self->flags);\n  store_cv_words(cv, cv_words);",
+     "                           0, self->flags);\n  store_cv_words(cv, cv_words);",
+     ["output_chaining_value_fn"], "output_chaining_value compresses with counter 0 instead of the node's counter"),
+    ("root_bytes_head_counter", "blake3.c",
+     "    out_len -= bytes;\n    output_block_counter += 1;", "    out_len -= bytes;",
+     ["output_root_bytes_fn"], "after a partial leading block the block counter is not advanced: the next block repeats it"),
+    ("finalize_parent_without_key", "blake3.c",
+     "    output = parent_output(parent_block, self->key, self->chunk.flags);",
+     "    output = parent_output(parent_block, self->chunk.cv, self->chunk.flags);",
+     ["blake3_hasher_finalize_seek_fn"], "finalize's roll-up builds parents over the chunk's cv instead of the key"),
 ]
 # Mutants that keep memory safety, frames and every shape invariant and only change WHICH bytes are
 # hashed: by design not detectable by this back end (functional correctness of the C library is an
 # assumption, see README); listed so that the self-test documents the limit (`mutants --limits`).
 NOT_CAUGHT_BY_DESIGN = [
-    ("finalize_stack_index", "blake3.c",
-     "cvs_remaining = self->cv_stack_len - 2;", "cvs_remaining = self->cv_stack_len - 1;",
-     ["blake3_hasher_finalize_seek"], "finalize starts the roll-up one stack entry too high: in bounds under HASHER_WF (len <= 54 there), wrong hash"),
-    ("parents_swapped_children", "blake3.c",
-     "&child_chaining_values[2 * parents_array_len * BLAKE3_OUT_LEN];\n    parents_array_len += 1;",
-     "&child_chaining_values[(num_chaining_values - 2 - 2 * parents_array_len) * BLAKE3_OUT_LEN];\n    parents_array_len += 1;",
-     ["compress_parents_parallel"], "parents are formed from the child pairs in reverse order: same frames, wrong tree"),
+    ("update_block_flags_dropped", "blake3.c",
+     "    blake3_compress_in_place(self->cv, input, BLAKE3_BLOCK_LEN,\n                             self->chunk_counter,\n                             self->flags | chunk_state_maybe_start_flag(self));",
+     "    blake3_compress_in_place(self->cv, input, BLAKE3_BLOCK_LEN,\n                             self->chunk_counter,\n                             self->flags);",
+     ["chunk_state_update"], "CHUNK_START dropped for blocks compressed straight from the input: chunk_state_update has no *_fn unit (a chain of compressions has no closed form)"),
+    ("chunks_partial_counter", "blake3.c",
+     "uint64_t counter = chunk_counter + (uint64_t)chunks_array_len;", "uint64_t counter = chunk_counter;",
+     ["compress_chunks_parallel"], "the trailing partial chunk is hashed with the first chunk's counter: compress_chunks_parallel has no *_fn unit (16 KiB of symbolic row data: out of memory)"),
 ]
 # thorough-tier mutants (slow unit): run with `mutants --thorough`
 MUTANTS_THOROUGH = [
@@ -122,8 +156,26 @@ MUTANTS_THOROUGH = [
     ("update_counter_increment", "blake3.c",
      "    self->chunk.chunk_counter += subtree_chunks;", "    self->chunk.chunk_counter += 1;",
      ["blake3_hasher_update_base"], "chunk counter advanced by 1 instead of the subtree's chunk count: byte total and stack shape broken"),
+    ("xof_many_counter_not_incremented", "blake3_dispatch.c",
+     "counter + i, flags, out + 64*i);", "counter, flags, out + 64*i);",
+     ["blake3_xof_many_fn"], "the portable xof_many fallback repeats block `counter` outblocks times"),
+    ("hash_many_avx2_blocks", "blake3_dispatch.c",
+     "    blake3_hash_many_avx2(inputs, num_inputs, blocks, key, counter,", "    blake3_hash_many_avx2(inputs, num_inputs, blocks - (blocks > 1), key, counter,",
+     ["blake3_hash_many_rows_fn"], "the AVX2 branch hashes one block less of every multi-block row (still inside the rows)"),
+    ("finalize_pending_chunk_flags", "blake3.c",
+     "    cvs_remaining = self->cv_stack_len;\n    output = chunk_state_output(&self->chunk);",
+     "    cvs_remaining = self->cv_stack_len;\n    output = chunk_state_output(&self->chunk);\n    output.flags &= (uint8_t)~CHUNK_END;",
+     ["blake3_hasher_finalize_seek_pending_fn"], "the pending chunk is folded into the tree without CHUNK_END"),
 ]
 HARMLESS = [
+    ("root_bytes_reordered", "blake3.c",
+     "    out += bytes;\n    out_len -= bytes;\n    output_block_counter += 1;",
+     "    output_block_counter += 1;\n    out_len -= bytes;\n    out += bytes;",
+     ["output_root_bytes_fn", "output_root_bytes"], "reorder three independent updates in output_root_bytes"),
+    ("dispatch_sse2_local_copies", "blake3_dispatch.c",
+     "    blake3_hash_many_sse2(inputs, num_inputs, blocks, key, counter,\n                          increment_counter, flags, flags_start, flags_end,",
+     "    const uint8_t fs = flags_start, fe = flags_end;\n    blake3_hash_many_sse2(inputs, num_inputs, blocks, key, counter,\n                          increment_counter, flags, fs, fe,",
+     ["blake3_hash_many_fn"], "pass flags_start / flags_end through local copies in the SSE2 branch"),
     ("rename_local", "blake3.c", None, None, [
         "chunk_state_fill_buf", "chunk_state_update"], "rename local `take` to `n_take` in chunk_state_fill_buf"),
     ("reorder_independent", "blake3.c",
@@ -132,7 +184,7 @@ HARMLESS = [
      ["chunk_state_init", "hasher_init_base"], "swap two independent stores in chunk_state_init"),
     ("shift_lines", "blake3.c",
      "#include \"blake3_impl.h\"\n", "#include \"blake3_impl.h\"\n\n/* an extra comment that shifts every line */\n\n",
-     ["chunk_state_update", "blake3_hasher_finalize_seek", "hasher_merge_cv_stack"],
+     ["chunk_state_update", "blake3_hasher_finalize_seek", "hasher_merge_cv_stack", "blake3_hasher_finalize_seek_fn", "output_root_bytes_fn"],
      "insert comment lines at the top (anchors and loop-contract insertion must survive)"),
 ]
 
